@@ -117,7 +117,7 @@ class C08(Check):
             eng.claim(f"{tag}: next() yields a frame exactly when the model does", (got == "frame") == (exp is not None))
             if fr is None or exp is None:
                 return
-            esize, eout = ic.padded(K, exp["padding"], exp["size"], ic.base_output(exp.get("number", r.log[-1][0]), exp["foo"]))
+            esize, eout = ic.padded(K, exp["padding"], exp["size"], ic.base_output(exp.get("number", r.log[-1][0]), exp["foo"], exp["duration"] is FD.DYNAMIC))
             edur = ic.DYN_DURATION if exp["duration"] is FD.DYNAMIC else exp["duration"]
             if not indef:
                 eng.claim(f"{tag}: frame number as the history dictates", fr.number == exp["number"])
